@@ -293,7 +293,7 @@ def run_and_judge(prop: str, tier: str, seed: int, items: List[KItem], info: dic
     for i, tail in errors:
         out.inconclusive_item(f'harness crate shard {i} did not build/run: {tail[-700:]}')
     # adaptive bound reduction: one retry of timeouts / errors at a smaller bound
-    retry = [it for it in items if it.result is None or it.result.status in ('timeout', 'error')]
+    retry = [it for it in items if it.result is None or it.result.status in ('timeout', 'error', 'oom')]
     retry = [it for it in retry if not errors and it.cls != 'heavy' and it.kind in ('c01', 'c04', 'c18d', 'c06d', 'c06s', 'c06t')]
     if retry:
         for it in retry:
@@ -360,9 +360,10 @@ def run_and_judge(prop: str, tier: str, seed: int, items: List[KItem], info: dic
         elif it.cls == 'heavy':
             # optional extras: reported, never counted as a pass, do not make the run inconclusive
             cov['optional_inconclusive'].append(f'{it.key}: {r.status} at input bound {it.L}')
-        elif r.status == 'timeout':
-            cov['undecided'].append(f'{it.key}: timeout at input bound {it.L}' + (' (already reduced)' if it.reduced else ''))
-            out.undecided_item(f'{it.key}: timeout at input bound {it.L}' + (' (already reduced)' if it.reduced else ''))
+        elif r.status in ('timeout', 'oom'):
+            why = 'timeout' if r.status == 'timeout' else 'CBMC ran out of memory'
+            cov['undecided'].append(f'{it.key}: {why} at input bound {it.L}' + (' (already reduced)' if it.reduced else ''))
+            out.undecided_item(f'{it.key}: {why} at input bound {it.L}' + (' (already reduced)' if it.reduced else ''))
         else:
             cov['inconclusive'] += 1
             out.inconclusive_item(f'{it.key}: {r.status} at input bound {it.L}' + (' (already reduced)' if it.reduced else ''))
